@@ -14,6 +14,9 @@ check("C01","bounded-exhaustive: every schema with <=2 (quick) / <=3 (thorough) 
 check("C12","bounded-exhaustive: every schema of the extended alphabet (formats, uncompilable pattern, discriminators) with <=2/<=3 keyword instances x every value is validated in all 12 mode combinations and through the IsMatching helpers; verdicts must agree and every returned SchemaError's pointer must resolve to the value it quotes",
  "relational oracle (default mode is the yardstick); errors nested as Origin are not asserted; schema-defect errors (uncompilable pattern) quote no value and are exempt from the value clause",
  "bounded exhaustive enumeration of (schema,value,mode) on the real code with a relational oracle","3 C12")
+check("C19","bounded-exhaustive: every schema of the extended alphabet with <=2/<=3 keyword instances x every marker-carrying value; every *SchemaError reachable from the result of each standalone mode and of ValidateRequest/ValidateResponse (reason-only customiser, details disabled, single and multi-error) is searched for the markers in Reason and in Error()",
+ "marker taint search; object keys are not values; evidence lists the reason construction sites reached",
+ "bounded exhaustive enumeration on the real code with an invariant (taint search) on every reachable error","3 C19")
 NA_REASON="check not built yet (work in progress; see DESIGN.md section 5)"
 m={"version":1,"setup_cmd":"bin/setup",
  "hooks":{"guard":"verif","enable":"go build -tags verif -overlay <generated> (bin/check does it on every invocation, regenerating the overlay from /repo's working tree)","baseline_off_cmd":"bin/baseline","source_commits":[],"add_only":True},
